@@ -89,6 +89,7 @@ impl TaskManager {
 
 					// Flush ALL pending immutable memtables in a loop
 					let mut flush_count = 0;
+					let mut failed = false;
 					loop {
 						match core.compact_memtable() {
 							Ok(()) => {
@@ -104,6 +105,7 @@ impl TaskManager {
 								core.error_handler()
 									.set_error(e, BackgroundErrorReason::MemtablaFlush);
 								write_stall.signal_shutdown();
+								failed = true;
 								break;
 							}
 						}
@@ -124,8 +126,10 @@ impl TaskManager {
 
 					// wake_up_memtable() is silent while `running` is set. A memtable
 					// rotated after our last look at the queue but before the flag was
-					// cleared has therefore no wake-up pending: look again.
-					if core.has_pending_immutables() {
+					// cleared has therefore no wake-up pending: look again. (Not after a
+					// failed flush: the memtable it failed on is still queued, and retrying
+					// it at once would spin on the same error.)
+					if !failed && core.has_pending_immutables() {
 						notify.notify_one();
 					}
 				}
